@@ -82,7 +82,7 @@ def run_case(case, ctx):
 
     def same(have, w):
         if exact:
-            return lib.same(R, have, w, exact=True)
+            return lib.same(R, have, w, exact=True, trunc=False)
         return close2(lib.have_value(R, have), lib.want_value(R, w), 1e-8, 1e-12)
 
     import random as _random
